@@ -67,6 +67,19 @@ def cases(rng, tier):
         # runs of the result may hold equal values
         out.append({"kind": "reduce", "a": a, "f": rng.choice(["any", "all", "max", "sum", "np.any", "np.all"]), "dta": rng.choice(["int64", "uint8", "float64"]),
                     "derive": rng.choice(["gt", "ne", "le", "concat"]), "t": rng.choice([-1, 0, 1, 2, 3])})
+    # LONG operands (lengths around 2**8 / 2**16, a few long runs whose boundaries differ between the operands)
+    for L in ([257, 65537, 70001] if tier == "quick" else [255, 256, 257, 65535, 65536, 65537, 70001, 131073]):
+        def longarr():
+            cuts = sorted({c for c in (rng.choice([1, 255, 256, 65535, 65536, 65537, L - 1, rng.randint(1, L)]) for _ in range(3)) if 0 < c < L})
+            a, prev, cls = [], 0, rng.randrange(3)
+            for c in cuts + [L]:
+                a += [cls] * (c - prev); prev = c; cls = (cls + rng.choice([1, 2])) % 3
+            return a
+        a, b = longarr(), longarr()
+        out.append({"kind": "arrays", "a": a, "b": b, "f": rng.choice(["add", "maximum", "equal", "multiply"]), "dta": "int32", "dtb": "int32", "long": True})
+        out.append({"kind": "scalar_right", "a": a, "f": "add", "c": 1, "dta": "int16", "long": True})
+        out.append({"kind": "reduce", "a": a, "f": rng.choice(["sum", "max", "any", "mean"]), "dta": "uint8", "long": True})
+        out.append({"kind": "concat", "parts": [a[:300], b[:65600] if L > 65600 else b[:200]], "dta": "int64", "long": True})
     for _ in range(400 if tier == "quick" else 6000):
         n = rng.randint(1, 30)
         a = rlgen.array_random(rng, n)[:n]; a = (a + [0] * n)[:n]
@@ -230,6 +243,8 @@ def oracle(p):
 
 def lean_request(p):
     k = p["kind"]
+    if p.get("long"):
+        return None
     if p.get("dta") != "int64" or p.get("dtb", "int64") != "int64":
         return None
     if k == "arrays" and p["f"] in BIN:
